@@ -67,6 +67,17 @@ var c13Menu = map[string]c13Item{
 	"selfail": {Name: "selfail", SQL: "SELECT abs(-9223372036854775808)", class: "failing-select", kind: 's'},
 	"empty":   {Name: "empty", SQL: "", class: "empty"},
 	"ws":      {Name: "ws", SQL: "  ", class: "whitespace"},
+	// statements that make, change or remove a schema object, and statements that only
+	// prepare when an EARLIER statement of the same request did so (part 'schema')
+	"mk":      {Name: "mk", SQL: "CREATE TABLE nt (id INTEGER PRIMARY KEY, w TEXT NOT NULL)", class: "create-table"},
+	"insnt":   {Name: "insnt", SQL: "INSERT INTO nt(w) SELECT 'n'||count(*) FROM t", class: "uses-created-table", kind: 'i'},
+	"selnt":   {Name: "selnt", SQL: "SELECT id, w FROM nt ORDER BY id", class: "uses-created-table", kind: 's'},
+	"addc":    {Name: "addc", SQL: "ALTER TABLE t ADD COLUMN age INTEGER", class: "add-column"},
+	"updc":    {Name: "updc", SQL: "UPDATE t SET age = id + 30 WHERE age IS NULL", class: "uses-added-column", kind: 'u'},
+	"mktmp":   {Name: "mktmp", SQL: "CREATE TEMP TABLE tt (id INTEGER, v TEXT)", class: "create-temp-table"},
+	"instmp":  {Name: "instmp", SQL: "INSERT INTO tt(id, v) SELECT MAX(id)+10, 'tmp'||(MAX(id)+10) FROM t", class: "uses-temp-table", kind: 'i'},
+	"fromtmp": {Name: "fromtmp", SQL: "INSERT INTO t(id, v) SELECT id, v FROM tt", class: "uses-temp-table", kind: 'i'},
+	"drop":    {Name: "drop", SQL: "DROP TABLE t", class: "drop-table"},
 	"begin":   {Name: "begin", SQL: "BEGIN", class: "begin", kind: 'c'},
 	"commit":  {Name: "commit", SQL: "COMMIT", class: "commit", kind: 'c'},
 }
@@ -179,6 +190,89 @@ type c13W struct {
 	opened int
 
 	resetFailed int
+
+	tmpReal, tmpShad bool // the connection may hold the TEMP table of the previous case
+
+	// schema mode (part 'schema'): requests may create, alter and drop tables, so the
+	// reset rebuilds the schema and the dump covers the schema and every main table
+	schema bool
+	init   string // dump of the seed state in schema mode (taken from a brand-new shadow)
+}
+
+// c13SchemaTables are the main-database tables a request of part 'schema' can touch.
+var c13SchemaTables = []string{"t", "nt"}
+
+const c13SchemaQ = "SELECT type, name, tbl_name, COALESCE(sql, '') FROM sqlite_master ORDER BY name"
+
+// In schema mode table t has no UNIQUE column: dropping a table that owns an index costs
+// ~5 ms on the real database here (against ~0.05 ms without), and it is dropped before
+// every case. The PRIMARY KEY still gives the constraint violations of this part.
+const c13SchemaS = "CREATE TABLE t (id INTEGER PRIMARY KEY, v TEXT NOT NULL, n INTEGER NOT NULL DEFAULT 0)"
+
+func (w *c13W) createSQL() string {
+	if w.schema {
+		return c13SchemaS
+	}
+	return c13Schema
+}
+
+// resetSQL: tmp = the previous case on this connection may have left the TEMP table
+// behind (only CREATE TEMP TABLE makes one; dropping it costs ~2 ms, so only then).
+func (w *c13W) resetSQL(tmp bool) []string {
+	if w.schema {
+		q := []string{"DROP TABLE IF EXISTS nt", "DROP TABLE IF EXISTS t", c13SchemaS, c13Seed}
+		if tmp {
+			q = append([]string{"DROP TABLE IF EXISTS temp.tt"}, q...)
+		}
+		return q
+	}
+	return []string{"DELETE FROM t", c13Seed}
+}
+
+func c13MakesTemp(sqls ...string) bool {
+	for _, q := range sqls {
+		if strings.HasPrefix(q, "CREATE TEMP") {
+			return true
+		}
+	}
+	return false
+}
+
+func (w *c13W) initial() string {
+	if w.schema {
+		return w.init
+	}
+	return c13Initial
+}
+
+func c13NoSuchTable(msg, tbl string) bool { return strings.Contains(msg, "no such table: "+tbl) }
+
+// shadowDump: the table (default mode) or the main schema plus the content of every main
+// table (schema mode; TEMP tables are connection-private and not part of the database).
+func (w *c13W) shadowDump(ctx context.Context, conn *sql.Conn) string {
+	if !w.schema {
+		s, err := c13ShadowQuery(ctx, conn, c13DumpQ)
+		if err != nil {
+			w.t.Fatalf("shadow dump: %v", err)
+		}
+		return s
+	}
+	s, err := c13ShadowQuery(ctx, conn, c13SchemaQ)
+	if err != nil {
+		w.t.Fatalf("shadow schema dump: %v", err)
+	}
+	for _, tb := range c13SchemaTables {
+		rows, err := c13ShadowQuery(ctx, conn, "SELECT * FROM main."+tb+" ORDER BY 1")
+		switch {
+		case err == nil:
+			s += "|" + tb + ":" + rows
+		case c13NoSuchTable(err.Error(), "main."+tb) || c13NoSuchTable(err.Error(), tb):
+			s += "|" + tb + ":absent"
+		default:
+			w.t.Fatalf("shadow dump of %s: %v", tb, err)
+		}
+	}
+	return s
 }
 
 const c13FreshEvery = 200
@@ -201,11 +295,12 @@ func (w *c13W) shadowConn() *sql.Conn {
 	if w.sconn != nil && w.nShad < w.fresh {
 		w.nShad++
 		w.sconn.ExecContext(ctx, "ROLLBACK")
-		for _, q := range []string{"DELETE FROM t", c13Seed} {
+		for _, q := range w.resetSQL(w.tmpShad) {
 			if _, err := w.sconn.ExecContext(ctx, q); err != nil {
 				t.Fatalf("shadow reset %q: %v", q, err)
 			}
 		}
+		w.tmpShad = false
 		return w.sconn
 	}
 	if w.sconn != nil {
@@ -221,12 +316,15 @@ func (w *c13W) shadowConn() *sql.Conn {
 	if err != nil {
 		t.Fatalf("shadow conn: %v", err)
 	}
-	for _, q := range []string{c13Schema, c13Seed} {
+	for _, q := range []string{w.createSQL(), c13Seed} {
 		if _, err := conn.ExecContext(ctx, q); err != nil {
 			t.Fatalf("shadow %q: %v", q, err)
 		}
 	}
-	w.sdb, w.sconn, w.nShad = sdb, conn, 1
+	w.sdb, w.sconn, w.nShad, w.tmpShad = sdb, conn, 1, false
+	if w.schema {
+		w.init = w.shadowDump(ctx, conn)
+	}
 	return conn
 }
 
@@ -244,15 +342,9 @@ func (w *c13W) shadow(items []c13Item, tx bool) c13Exp {
 			t.Fatalf("shadow %q: %v", q, err)
 		}
 	}
-	dump := func() string {
-		s, err := c13ShadowQuery(ctx, conn, c13DumpQ)
-		if err != nil {
-			t.Fatalf("shadow dump: %v", err)
-		}
-		return s
-	}
+	dump := func() string { return w.shadowDump(ctx, conn) }
 	exp := c13Exp{initial: dump(), failed: -1}
-	if exp.initial != c13Initial {
+	if exp.initial != w.initial() {
 		t.Fatalf("shadow database not in the seed state: %s", exp.initial)
 	}
 	committed := exp.initial
@@ -264,6 +356,7 @@ func (w *c13W) shadow(items []c13Item, tx bool) c13Exp {
 		if it.SQL == "" {
 			continue
 		}
+		w.tmpShad = w.tmpShad || c13MakesTemp(it.SQL)
 		o := c13Out{item: it, stmt: si, inTx: explicit}
 		if it.class == "whitespace" {
 			o.optional = true
@@ -362,12 +455,20 @@ func (w *c13W) realDB() *DB {
 	t := w.t
 	if w.db != nil && w.nReal < w.fresh {
 		// the previous case ended with COMMIT, so no transaction is open here
-		reset := &command.Request{Transaction: true, Statements: []*command.Statement{{Sql: "DELETE FROM t"}, {Sql: c13Seed}}}
+		reset := &command.Request{Transaction: true}
+		for _, q := range w.resetSQL(w.tmpReal) {
+			reset.Statements = append(reset.Statements, &command.Statement{Sql: q})
+		}
 		sr, err := w.db.Execute(reset, false)
-		if err == nil && len(sr) == 2 && c13RealErr(sr[0]) == "" && c13RealErr(sr[1]) == "" {
+		ok := err == nil && len(sr) == len(reset.Statements)
+		for _, x := range sr {
+			ok = ok && c13RealErr(x) == ""
+		}
+		if ok {
 			w.nReal++
+			w.tmpReal = false
 			if w.nReal%4 == 1 {
-				if d := w.realDump(); d != c13Initial {
+				if d := w.realDump(); d != w.initial() {
 					t.Fatalf("real database not in the seed state after reset: %s", d)
 				}
 			}
@@ -385,25 +486,47 @@ func (w *c13W) realDB() *DB {
 	if err != nil {
 		t.Fatalf("open real database: %v", err)
 	}
-	setup := &command.Request{Transaction: true, Statements: []*command.Statement{{Sql: c13Schema}, {Sql: c13Seed}}}
+	setup := &command.Request{Transaction: true, Statements: []*command.Statement{{Sql: w.createSQL()}, {Sql: c13Seed}}}
 	sr, err := db.Execute(setup, false)
 	if err != nil || len(sr) != 2 || c13RealErr(sr[0]) != "" || c13RealErr(sr[1]) != "" {
 		t.Fatalf("seed real database: %v %v", err, sr)
 	}
-	w.db, w.nReal = db, 1
+	w.db, w.nReal, w.tmpReal = db, 1, false
 	w.opened++
-	if d := w.realDump(); d != c13Initial {
+	if d := w.realDump(); d != w.initial() {
 		t.Fatalf("real database not in the seed state: %s", d)
 	}
 	return w.db
 }
 
 func (w *c13W) realDump() string {
-	rows, err := w.db.QueryStringStmt(c13DumpQ)
-	if err != nil || len(rows) != 1 || rows[0].GetError() != "" {
-		w.t.Fatalf("dump real database: %v %v", err, rows)
+	if !w.schema {
+		rows, err := w.db.QueryStringStmt(c13DumpQ)
+		if err != nil || len(rows) != 1 || rows[0].GetError() != "" {
+			w.t.Fatalf("dump real database: %v %v", err, rows)
+		}
+		return c13RealRows(rows[0])
 	}
-	return c13RealRows(rows[0])
+	rows, err := w.db.QueryStringStmt(c13SchemaQ)
+	if err != nil || len(rows) != 1 || rows[0].GetError() != "" {
+		w.t.Fatalf("dump real schema: %v %v", err, rows)
+	}
+	s := c13RealRows(rows[0])
+	for _, tb := range c13SchemaTables {
+		rows, err := w.db.QueryStringStmt("SELECT * FROM main." + tb + " ORDER BY 1")
+		if err != nil || len(rows) != 1 {
+			w.t.Fatalf("dump real table %s: %v %v", tb, err, rows)
+		}
+		switch e := rows[0].GetError(); {
+		case e == "":
+			s += "|" + tb + ":" + c13RealRows(rows[0])
+		case c13NoSuchTable(e, "main."+tb) || c13NoSuchTable(e, tb):
+			s += "|" + tb + ":absent"
+		default:
+			w.t.Fatalf("dump real table %s: %s", tb, e)
+		}
+	}
+	return s
 }
 
 // real runs the request on the given path against a database in the seed state, then
@@ -415,6 +538,9 @@ func (w *c13W) real(req *command.Request, path string) c13Real {
 	db := w.realDB()
 	var out c13Real
 	var rerr error
+	for _, st := range req.Statements {
+		w.tmpReal = w.tmpReal || c13MakesTemp(st.Sql)
+	}
 	switch path {
 	case "execute":
 		out.results, rerr = db.Execute(req, false)
@@ -488,7 +614,8 @@ func c13ResultOK(o c13Out, r *command.ExecuteQueryResponse, path string) bool {
 	}
 	switch o.item.kind {
 	case 'i':
-		return r.GetE() != nil && r.GetE().GetRowsAffected() == o.ra && r.GetE().GetLastInsertId() == o.lid
+		// the insert id only belongs to this statement when it inserted something
+		return r.GetE() != nil && r.GetE().GetRowsAffected() == o.ra && (o.ra == 0 || r.GetE().GetLastInsertId() == o.lid)
 	case 'u':
 		return r.GetE() != nil && r.GetE().GetRowsAffected() == o.ra
 	}
@@ -758,6 +885,10 @@ func c13RunCase(w *c13W, r *kit.Run, items []c13Item, exp c13Exp, tx, roe bool, 
 	}
 	c := c13Case{Part: part, Path: path, Tx: tx, Roe: roe, Items: c13Names(items), SQL: sqls, Got: sigs, Dump: real.dump}
 	for i, k := range v.keys {
+		if part == "schema" {
+			// its own class: the request changes the schema and later statements depend on it
+			k = strings.TrimSuffix(k, ":"+path) + ":request-changes-schema:" + path
+		}
 		r.Violation(k, fmt.Sprintf("%s path, transaction=%v rollback_on_error=%v, statements %v: %s; results %v", path, tx, roe, c.Items, v.why[i], sigs), c)
 	}
 }
@@ -778,7 +909,7 @@ func c13Enumerate(t testing.TB, r *kit.Run, dir string, menu []c13Item, minLen, 
 		wg.Add(1)
 		go func(wi int) {
 			defer wg.Done()
-			w := &c13W{t: t, file: filepath.Join(dir, fmt.Sprintf("w%d.db", wi))}
+			w := &c13W{t: t, file: filepath.Join(dir, fmt.Sprintf("w%d.db", wi)), schema: r.Part == "schema"}
 			defer func() {
 				w.close()
 				r.Add("databases_opened", int64(w.opened))
@@ -847,7 +978,7 @@ func c13Replay(t *testing.T, r *kit.Run, parts ...string) bool {
 		return true
 	}
 	items := c13Items(c.Items...)
-	w := &c13W{t: t, file: filepath.Join(kit.Scratch(t), "replay.db"), fresh: 1}
+	w := &c13W{t: t, file: filepath.Join(kit.Scratch(t), "replay.db"), fresh: 1, schema: c.Part == "schema"}
 	defer w.close()
 	if c.Part == "joined" {
 		c13RunJoined(w, r, items, c.Tx, c.Roe)
@@ -906,6 +1037,48 @@ func TestVerif_C13(t *testing.T) {
 				for _, roe := range []bool{false, true} {
 					for _, path := range []string{"execute", "unified"} {
 						c13RunCase(w, r, items, exp, tx, roe, path, "enum")
+					}
+				}
+			}
+			r.SampleEvery(idx, map[string]any{"statements": c13Names(items)})
+		})
+		r.State(seqs)
+		r.Add("requests", int64(seqs))
+	}
+}
+
+// TestVerif_C13_schema: requests in which a later statement depends on a schema object
+// that an EARLIER statement of the same request made, changed or removed: CREATE TABLE +
+// INSERT/SELECT on it, ALTER TABLE ADD COLUMN + UPDATE using the column, CREATE TEMP TABLE
+// + INSERT into it + INSERT INTO real SELECT FROM temp, DROP TABLE + statements using the
+// dropped table (which must fail exactly as on the shadow database). Every such statement
+// on its own (or in the wrong order) fails with "no such table/column" on the shadow as
+// well. The execute path, which never classifies statements, is the control.
+func TestVerif_C13_schema(t *testing.T) {
+	r := kit.Start(t, "C13", "schema")
+	defer r.Finish()
+	if c13Replay(t, r, "schema") {
+		return
+	}
+	full := []string{"mk", "insnt", "selnt", "addc", "updc", "mktmp", "instmp", "fromtmp", "drop", "ins", "conpk"}
+	stages := []c13Stage{{full, 1, 3}}
+	if r.Thorough() {
+		wide := append(append([]string{}, full...), "upd", "sel", "syn", "ret", "notab")
+		core := []string{"mk", "insnt", "addc", "updc", "mktmp", "instmp", "fromtmp", "drop", "conpk"}
+		stages = []c13Stage{{wide, 1, 3}, {core, 4, 4}}
+	}
+	freshLen := 1
+	r.Rule(fmt.Sprintf("%s; each x transaction flag x rollback-on-error flag x {db.Execute, db.Request}, each on a WAL-mode database file holding table t with one seed row (requests of 1 statement: a brand-new file per case; longer: schema rebuilt by a checked DROP TABLE IF EXISTS [temp.tt,] nt, t + CREATE + INSERT transaction (t without its UNIQUE column constraint in this part) after the previous case's closing COMMIT, spot-verified by a dump, new file every %d cases); oracle = shadow SQLite database driven statement by statement on ONE connection with explicit BEGIN/COMMIT/ROLLBACK under the rule of the statement; final state compared = sqlite_master (type, name, tbl_name, sql) plus all rows of every main table (TEMP tables are private to the write connection and not part of the database); distinct = distinct (path, flags, result list, final schema+content) observations", c13Stages(stages), c13FreshEvery))
+	r.Assume("SQLite (the shadow database executes the same statement text through plain database/sql on one connection) defines each single statement's own outcome, including whether it can be prepared against the schema the earlier statements of the request left on that connection")
+	r.Note("the write connection of db.DB is a single pooled connection (MaxOpenConns 1, no lifetime limit), so a TEMP table lives across the statements of a request exactly as on the shadow's single connection; it is dropped by the reset between cases")
+	dir := kit.Scratch(t)
+	for _, st := range stages {
+		seqs := c13Enumerate(t, r, dir, c13Items(st.menu...), st.minLen, st.maxLen, 16, freshLen, func(w *c13W, idx int, items []c13Item) {
+			for _, tx := range []bool{false, true} {
+				exp := w.shadow(items, tx)
+				for _, roe := range []bool{false, true} {
+					for _, path := range []string{"execute", "unified"} {
+						c13RunCase(w, r, items, exp, tx, roe, path, "schema")
 					}
 				}
 			}
